@@ -207,6 +207,23 @@ Definition cr_ok (c : crcase) : bool :=
   | _, _ => false
   end.
 
+(* Second-chance comparator, applied by the harness only to the cases on which
+   [cr_ok] is false: same shape and NaN pattern, every number within
+   1e-11*max(1,|expected|).  A case that passes it is counted as "rounding
+   drift" (e.g. a re-associated sum in the code), not as a disagreement. *)
+Definition cr_tol : float := 0x1.5fd7fe1796495p-37.   (* 1e-11 *)
+
+Definition crout_close (o : crout) (e : list float * list (list float)) : bool :=
+  list_same (f_close cr_tol) [o_crps o; o_reli o; o_resol o; o_unc o; o_pot o] (fst e) &&
+  list_same (list_same (f_close cr_tol)) (map trow_list (o_table o)) (snd e).
+
+Definition cr_ok_close (c : crcase) : bool :=
+  match crps F64 (cr_rows c), cr_expect c with
+  | None, None => true
+  | Some o, Some e => crout_close o e
+  | _, _ => false
+  end.
+
 (* the same against the kernel of the pinned commit (used for the recorded witness) *)
 Definition cr_ok_pinned (c : crcase) : bool :=
   match crps_pinned F64 (cr_rows c), cr_expect c with
